@@ -29,11 +29,16 @@ structure FileSem where
       ignoring the header-row option; xlsx / xlsb read each sheet through `worksheet_range` -/
   eager : Bool
   sheets : List String
-  /-- `worksheet_range_ref(name)` under a header-row option (canonical dump; errors included) -/
-  rangeRef : String → Hdr → Out
+  /-- the reader's sheet table: sheet name ↦ part (xlsx/xlsb: `Vec<(name, path)>` searched front to back with
+      `find`; xls/ods: a map keyed by name). A sheet of another kind than worksheet may be listed in
+      `sheets` (the metadata order) without an entry here. -/
+  parts : List (String × String)
+  /-- reading the cells of a PART under a header-row option (canonical dump; read errors included) -/
+  partRange : String → Hdr → Out
+  /-- reading the formulas of a part -/
+  partFormula : String → Out
   /-- cell-by-cell `Data::from(DataRef)` on a dump -/
   toOwned : Out → Out
-  formula : String → Out
   mergeCells : String → Out
   mergedAll : Out
   mergedBySheet : String → Out
@@ -72,6 +77,23 @@ inductive Op where
 
 def notLoaded : Out := "panic:not-loaded"
 def unknownSheet : Out := "none"
+def worksheetNotFound : Out := "err:WorksheetNotFound"
+
+/-- sheet lookup by name: the first entry of the table with that name -/
+def lookupSheet (F : FileSem) (name : String) : Option String :=
+  (F.parts.find? (fun e => e.1 == name)).map (·.2)
+
+/-- `worksheet_range_ref(name)`: an unknown name is `WorksheetNotFound`, never another sheet -/
+def FileSem.rangeRef (F : FileSem) (name : String) (h : Hdr) : Out :=
+  match lookupSheet F name with
+  | some part => F.partRange part h
+  | none => worksheetNotFound
+
+/-- `worksheet_formula(name)` -/
+def FileSem.formula (F : FileSem) (name : String) : Out :=
+  match lookupSheet F name with
+  | some part => F.partFormula part
+  | none => worksheetNotFound
 
 /-- `worksheet_range`: the owned path is the ref path converted cell by cell -/
 def rangeOut (F : FileSem) (h : Hdr) (name : String) : Out := F.toOwned (F.rangeRef name h)
